@@ -48,17 +48,17 @@ type c05Gen struct {
 	Wall             float64
 }
 
-func generateC05(c *core.Ctx, maxDev int) (*c05Gen, error) {
+func generateC05(c *core.Ctx, maxDev, hdrCost int) (*c05Gen, error) {
 	mod := "MCgen_GossipCrash"
 	var fl []string
 	for _, f := range Flavours {
 		fl = append(fl, fmt.Sprintf("%q", f))
 	}
-	cfg := "CONSTANTS\n" + c05Consts() + fmt.Sprintf(" MCFlavours = {%s}\n MaxDev = %d\n Emit = TRUE\n", strings.Join(fl, ", "), maxDev) +
+	cfg := "CONSTANTS\n" + c05Consts() + fmt.Sprintf(" MCFlavours = {%s}\n MaxDev = %d\n HdrCost = %d\n Emit = TRUE\n", strings.Join(fl, ", "), maxDev, hdrCost) +
 		"SPECIFICATION Spec\nINVARIANT EmitInv\nINVARIANT Design\nCHECK_DEADLOCK FALSE\n"
 	workers := c.Workers
-	if workers > 8 {
-		workers = 8
+	if workers > 6 {
+		workers = 6
 	}
 	res, err := tlc.Run(tlc.Opts{Module: mod, CfgText: cfg, Workers: workers, Timeout: 25 * time.Minute, HeapGB: 8,
 		Files: map[string][]byte{mod + ".tla": []byte("---- MODULE " + mod + " ----\nEXTENDS GossipCrashMC\n====\n")},
@@ -130,9 +130,31 @@ func (w *World) c05Data(d delivery) []byte {
 	if d.data != nil {
 		return d.data
 	}
-	msg := w.BuildC05(d.cs.Fl, d.cs.M)
-	env := Envelope(msg, true)
+	msg := w.BuildC05(d.cs.Fl, d.cs.M, d.cs.Instv)
+	env := EnvelopeVersioned(msg, VersionString(d.cs.Ver))
 	return MutateBytes(d.cs.Bytes, msg, env, rand.New(rand.NewSource(caseSeed(w.Seed, d.cs.Raw, d.rep))))
+}
+
+// c05Delivery: the byte string on the topic of the case, with the topic field class of the case.
+func c05Delivery(cs *CCase, data []byte) Delivery {
+	reg := TopicName(cs.Topic)
+	dl := Delivery{RegTopic: reg, Topic: reg, Data: data}
+	switch cs.Tp {
+	case "nil":
+		dl.NilTopic = true
+	case "empty":
+		dl.Topic = ""
+	case "trunc":
+		dl.Topic = reg[:len(reg)-1]
+	case "upper":
+		dl.Topic = strings.ToUpper(reg)
+	case "sibling":
+		dl.Topic = TopicName("keys")
+		if cs.Topic == "keys" {
+			dl.Topic = TopicName("shares")
+		}
+	}
+	return dl
 }
 
 type c05Result struct {
@@ -144,7 +166,7 @@ type c05Result struct {
 // node) before a timeout is believed.
 func deliverC05(ctx context.Context, w *World, n *Node, d delivery, measure bool) c05Result {
 	data := w.c05Data(d)
-	dl := Delivery{RegTopic: TopicName(d.cs.Topic), Topic: TopicName(d.cs.Topic), Data: data}
+	dl := c05Delivery(d.cs, data)
 	var before runtime.MemStats
 	if measure {
 		runtime.ReadMemStats(&before)
@@ -380,7 +402,11 @@ func CheckC05(c *core.Ctx) int {
 		maxDev, reps, allocN = 3, 64, 60000
 	}
 	c.Logf("TLC: GossipCrashMC, class combinations with <= %d deviations (%s)", maxDev, strings.ReplaceAll(strings.TrimSpace(c05Consts()), "\n", ","))
-	g, err := generateC05(c, maxDev)
+	// a non-ok header class counts as two deviations: quick (max 2): only with an otherwise canonical
+	// delivery; thorough (max 3): with one more deviation (counting it as one gives 767 377
+	// combinations in the thorough tier, too many to deliver 64 times each)
+	hdrCost := 2
+	g, err := generateC05(c, maxDev, hdrCost)
 	if err != nil {
 		fmt.Println("INCONCLUSIVE:", err)
 		return core.ExitInconclusive
@@ -518,7 +544,7 @@ func CheckC05(c *core.Ctx) int {
 			return core.ExitInconclusive
 		}
 	}
-	vo, err := validateLines(make([]Line, len(all)), make([][]byte, len(all)), validateC05, func(a, b int) []byte { return encodeCLines(all, allRes, a, b) }, 8)
+	vo, err := validateLines(make([]Line, len(all)), make([][]byte, len(all)), validateC05, func(a, b int) []byte { return encodeCLines(all, allRes, a, b) }, 6)
 	if err != nil {
 		fmt.Println("INCONCLUSIVE:", err)
 		return core.ExitInconclusive
@@ -728,7 +754,7 @@ func StressChild(seed int64) int {
 		}
 		d := delivery{cs: &cs}
 		data := w.c05Data(d)
-		dl := Delivery{RegTopic: TopicName(cs.Topic), Topic: TopicName(cs.Topic), Data: data}
+		dl := c05Delivery(&cs, data)
 		val := n.Msg.VerifGossipvalCombinedValidator(dl.RegTopic)
 		stop := make(chan struct{})
 		var wg sync.WaitGroup
